@@ -168,13 +168,35 @@ def view_bip(G):
 VIEW = {SIMPLE: view_simple, DIRECTED: view_di, BIP: view_bip, CBIP: view_bip}
 
 
-def run_history(kind, size, ops):
+class kept_view:
+    """`with kept_view(G, K):` — inside, G.edges() hands out the view object K obtained once after construction
+    (a caller that keeps `E = G.edges()` and looks at it again later) instead of a fresh one"""
+
+    def __init__(self, G, K):
+        self.G, self.K = G, K
+
+    def __enter__(self):
+        if self.K is not None:
+            K = self.K
+            self.G.edges = lambda: K
+
+    def __exit__(self, *a):
+        if self.K is not None:
+            del self.G.edges
+
+
+def run_history(kind, size, ops, keep=None):
     G = make(kind, size)
     view = VIEW[kind]
+    K = None
+    if keep is not None:
+        K = G.edges()
+        list(K)
     out = [view(G)]
-    for op in ops:
+    for i, op in enumerate(ops, start=1):
         o = apply_op(G, op)
-        out.append(o + " " + view(G))
+        with kept_view(G, K if keep is not None and i in keep else None):
+            out.append(o + " " + view(G))
     return "OK " + " | ".join(out)
 
 
@@ -371,8 +393,9 @@ def _ref_like(R):
     return R2
 
 
-def property_fails(kind, size, ops, nx_every=False):
-    """None if the property holds on this history, else a description of the first failure"""
+def property_fails(kind, size, ops, nx_every=False, keep=None):
+    """None if the property holds on this history, else a description of the first failure.
+    keep: steps after which the views are taken through the edge view obtained (and listed once) after construction"""
     R = Ref(kind, size)
     ctor_ok = all(s >= 0 for s in size)
     try:
@@ -385,14 +408,21 @@ def property_fails(kind, size, ops, nx_every=False):
     if f is not None:
         f.update(step=0, op=None)
         return f
+    K = None
+    if keep is not None:
+        K = G.edges()
+        list(K)
     for i, op in enumerate(ops, start=1):
         want = R.step(op)
         got = apply_op(G, op)
         if got != want:
             return {"step": i, "op": op, "view": "outcome of the call", "real_object": got, "edge_set_says": want}
-        f = check_views(G, R)
+        with kept_view(G, K if keep is not None and i in keep else None):
+            f = check_views(G, R)
         if f is not None:
             f.update(step=i, op=op)
+            if keep is not None and i in keep:
+                f["through"] = "the edge view obtained after construction and kept by the caller"
             return f
         if nx_every or i == len(ops):
             f = check_networkx(G, R)
@@ -449,11 +479,14 @@ def shrink(kind, size, ops):
     return ops
 
 
-def hist_oracle(kind, size, ops):
+def hist_oracle(kind, size, ops, keep=None):
     def oracle():
-        f = property_fails(kind, size, ops)
+        f = property_fails(kind, size, ops, keep=keep)
         if f is None:
             return None
+        if keep is not None:
+            return {"graph": KNAME[kind], "initial_size": list(size), "history": ops, "kept_view_listed_after_steps": sorted(keep),
+                    "first_failure": f}
         small = shrink(kind, size, ops)
         f2 = property_fails(kind, size, small, nx_every=True) or f
         return {"graph": KNAME[kind], "initial_size": list(size), "minimal_failing_history": small,
@@ -498,11 +531,14 @@ def build(suite, info):
             if o[0] == "addm":
                 o[1] = [list(e) for e in o[1]]
         r = req("ghist", kind, size, enc_ops(ops))
+        keep = set(info["keep"]) if info.get("keep") is not None else None
+        if any(s < 0 for s in size):
+            keep = None
 
         def impl():
-            return run_history(kind, size, ops)
-        cls = KNAME[kind] + (":bad-size" if any(s < 0 for s in size) else "")
-        return Case(suite, r, impl, hist_oracle(kind, size, ops), cls=cls, nontrivial=len(ops) > 0, info=info)
+            return run_history(kind, size, ops, keep)
+        cls = KNAME[kind] + (":bad-size" if any(s < 0 for s in size) else "") + (":kept-view" if keep is not None else "")
+        return Case(suite, r, impl, hist_oracle(kind, size, ops, keep), cls=cls, nontrivial=len(ops) > 0, info=info)
     if suite == "nx":
         edges = [tuple(e) for e in info["edges"]]
         labels, order, flips = info["labels"], info["order"], info["flips"]
@@ -718,7 +754,11 @@ def cases(ctx):
         if kind == CBIP:
             length = min(length, 6)
         ops = gen_history(rng, kind, size, length)
-        yield build("hist", dict(kind=kind, size=size, ops=ops))
+        info = dict(kind=kind, size=size, ops=ops)
+        if i % 3 == 0:
+            # the caller keeps the edge view of the fresh object and looks at it again after some of the updates
+            info["keep"] = [j for j in range(1, len(ops) + 1) if rng.random() < .3]
+        yield build("hist", info)
     for i in range(reps // 3):
         yield build("nx", gen_nx(rng, rng.choice([SIMPLE, DIRECTED, BIP])))
 
